@@ -479,7 +479,10 @@ func specialStreams(c *specialCtx) {
 		for k := 0; k < len(data)+len(script)+16; k++ {
 			err, pan := vt.Step()
 			if pan != "" {
-				return // C01
+				if strings.Contains(pan, "the read loop does not stop") {
+					c.violation("stream-no-stop", fmt.Sprintf("read script %v: %s", sizes, pan), payload)
+				}
+				return // other panics: C01
 			}
 			if err != nil {
 				loopErr = err
@@ -784,6 +787,19 @@ func (f *lockProbeFrontend) ViewStringChanged(v te.ViewString, s string) {
 	}
 }
 
+// selfStoppingTee ends the recording from inside its own Write.
+type selfStoppingTee struct {
+	tee  *te.TeeBackend
+	done chan struct{}
+	once sync.Once
+}
+
+func (s *selfStoppingTee) Write(p []byte) (int, error) {
+	s.tee.SetTee(nil)
+	s.once.Do(func() { close(s.done) })
+	return len(p), nil
+}
+
 // lockScenario is one concurrent scenario; it exits non-zero with a message on a protocol
 // violation. Races are reported by the race runtime, deadlocks by the parent's timeout.
 func lockScenario(seed int64) int {
@@ -954,6 +970,36 @@ func lockScenario(seed int64) int {
 	case <-time.After(8 * time.Second):
 		fmt.Printf("deadlock: TTYFrontend.Attach did not return (%d attaches completed) while the read loop was delivering callbacks\n", attaches.Load())
 		return 7
+	}
+	// 3. a recorder behind the TeeBackend stops recording while a tee write is in flight, from
+	// the consumer side of a pipe and from inside its own Write
+	{
+		rp, wp := io.Pipe()
+		tee.SetTee(wp)
+		recDone := make(chan struct{})
+		go func() {
+			buf := make([]byte, 3)
+			_, _ = io.ReadFull(rp, buf)
+			tee.SetTee(nil)
+			rp.Close()
+			close(recDone)
+		}()
+		go func() { _, _ = pw.Write([]byte("0123456789")) }()
+		select {
+		case <-recDone:
+		case <-time.After(8 * time.Second):
+			fmt.Println("deadlock: SetTee(nil) from the consumer of a tee pipe did not return while a tee write was in flight")
+			return 8
+		}
+		selfDone := make(chan struct{})
+		tee.SetTee(&selfStoppingTee{tee: tee, done: selfDone})
+		go func() { _, _ = pw.Write([]byte("abcdefghij")) }()
+		select {
+		case <-selfDone:
+		case <-time.After(8 * time.Second):
+			fmt.Println("deadlock: a tee writer calling SetTee from its own Write did not return")
+			return 9
+		}
 	}
 	pw.Close()
 	select {
